@@ -7,7 +7,7 @@
    schedule of all the goroutines holding ends of the streams; the arguments [ch] of
    ORecv / OFwd are the outcomes of Go's [select]s.  "forall fuel ops" therefore quantifies
    over every tree, every item sequence, every capacity and every interleaving. *)
-From Eino Require Import Base.Util Model.Stream Model.StreamIlv Proofs.Stream Proofs.StreamRel Proofs.StreamWf Proofs.StreamClose Proofs.StreamLink Proofs.StreamSem Proofs.StreamEof Proofs.StreamOnce Proofs.StreamTrace Proofs.StreamRank Proofs.StreamTotal Proofs.StreamProg Proofs.StreamOwned Proofs.StreamIlv.
+From Eino Require Import Base.Util Model.Stream Model.StreamIlv Proofs.Stream Proofs.StreamRel Proofs.StreamWf Proofs.StreamClose Proofs.StreamLink Proofs.StreamSem Proofs.StreamEof Proofs.StreamOnce Proofs.StreamTrace Proofs.StreamRank Proofs.StreamTotal Proofs.StreamProg Proofs.StreamOwned Proofs.StreamIlv Proofs.StreamSend.
 
 (* ------------------------------------------------------------------ base streams *)
 
@@ -389,6 +389,45 @@ Theorem send_block_released_by_recv : forall s x, List.length (s_buf s) <= eff_c
 Proof. exact send_block_reader_ready. Qed.
 Print Assumptions send_block_released_by_recv.
 
+
+(* blocked_send_waits_for_reader: the writer side.  In a reachable state of a legal run (readers
+   used as the API documents, each closed at most once) in which every forwarder goroutine is
+   blocked or has finished, a Send of user code that blocks — buffer full, receive side open — is
+   waited for by a reader that user code itself holds (live), has not closed, that derives from
+   that pipe through the forwarders and copy parents on the way, and that is *hot*: a stream it
+   selects on holds an item, or its place in the shared list of a copy parent is filled, or — at
+   the end of that list — the parent's source is hot.  The proof climbs from the full pipe to its
+   owner (every_reference_owned), by increasing rank (derivation_well_founded): a handle — done; a
+   copy parent — not all children are closed (else the pipe would be receive-closed: close
+   propagation), and an open child is hot; a forwarder — not parked in Recv (its source is hot),
+   not finished (it would have closed the pipe), so parked in Send on its own full stream: climb
+   on from there.  Contrapositive: when a Send blocks and user code holds no such reader, some
+   forwarder goroutine can take a step.  With no_internal_deadlock: no cycle of waiting among the
+   library's goroutines, in either direction. *)
+Theorem blocked_send_waits_for_reader : forall fuel ops bs G,
+  run fuel init_state ops = (bs, G) -> legal_run2 fuel ops ->
+  (forall F, In F (st_fwds G) -> fwd_blocked fuel G F) ->
+  forall u s x, nth_error (streams (st_store G)) u = Some s -> s_user s = true ->
+    fst (stream_send s x) = SBlock ->
+    exists h H, nth_error (st_handles G) h = Some H /\ h_live H = true /\ h_closed H = false
+                /\ Hot (st_store G) (h_rd H) /\ Derives G (h_rd H) u.
+Proof. exact run_blocked_send_waits. Qed.
+Print Assumptions blocked_send_waits_for_reader.
+
+(* hot_reader_not_drained / hot_recv_consumes: what "hot" gives the holder of the reader: a hot
+   reader is not in the state in which Recv parks (recv_block_drained), and a Recv on it that
+   parks all the same (a converted reader that skipped every item it found) has consumed what made
+   it hot: the blocked writer has been released (send_block_released_by_recv) *)
+Theorem hot_reader_not_drained : forall st t, Hot st t -> ~ Drained st t.
+Proof. intros st t H D. exact (Hot_not_Drained st t H D). Qed.
+Print Assumptions hot_reader_not_drained.
+
+Theorem hot_recv_consumes : forall fuel ops bs G, run fuel init_state ops = (bs, G) ->
+  forall h ch G', do_op fuel G (ORecv h ch) = (BRecv PBlock, G') ->
+  exists H', nth_error (st_handles G') h = Some H' /\ h_live H' = true /\ ~ Hot (st_store G') (h_rd H').
+Proof. exact run_hot_recv_consumes. Qed.
+Print Assumptions hot_recv_consumes.
+
 (* ------------------------------------------------------------------ non-vacuity *)
 
 (* a run with a pipe, a conversion, a copy, a merge through forwarders, sends and receives:
@@ -483,4 +522,26 @@ Proof.
   - intros F [<-|[]]. unfold fwd_blocked. simpl. exists [], []. vm_compute. reflexivity.
   - eexists. split; [reflexivity|]. split; [reflexivity|]. simpl. apply D_mul; [discriminate|].
     intros i sid [<-|[]] Hn; simpl in Hn; inversion Hn; subst; reflexivity.
+Qed.
+
+(* a blocked writer: Merge(Convert(pipe of capacity 1), array); the writer sends, the forwarder
+   goroutine moves six items (five fill its stream, it holds the sixth and is parked in Send), the
+   seventh fills the pipe: the hypotheses of blocked_send_waits_for_reader hold in a state in
+   which the next Send blocks — and the merged reader (handle 3), which nobody has read, is hot *)
+Definition ex3_round (v : N) : list op := [ OSend 0 (IVal v); OFwd 0 []; OFwd 0 [] ].
+Definition ex3_ops : list op :=
+  [ OPipe 1; OConv 0 (fun v => CVal (v + 10)%N); OArray [7%N]; OMerge [1; 2] ]
+  ++ flat_map ex3_round [1; 2; 3; 4; 5; 6]%N ++ [ OSend 0 (IVal 7%N) ].
+
+Example ex3_legal2 : legal_run2 50 ex3_ops.
+Proof. apply run_legal2b_sound. vm_compute. reflexivity. Qed.
+
+Example ex3_blocked_send : exists bs G, run 50 init_state ex3_ops = (bs, G)
+  /\ (forall F, In F (st_fwds G) -> fwd_blocked 50 G F)
+  /\ exists s, nth_error (streams (st_store G)) 0 = Some s /\ s_user s = true
+               /\ fst (stream_send s (IVal 8%N)) = SBlock.
+Proof.
+  eexists. eexists. split; [vm_compute; reflexivity|]. split.
+  - intros F [<-|[]]. unfold fwd_blocked. simpl. eexists. split; [reflexivity|]. vm_compute. reflexivity.
+  - eexists. split; [reflexivity|]. split; vm_compute; reflexivity.
 Qed.
